@@ -1161,19 +1161,26 @@ class ReferenceResolver:
                     obj.__class__.__name__ + ".*",
                     "*.*",
                 ]
-                if crossref.scope_provider is not None:
-                    resolved = crossref.scope_provider(obj, attr, crossref)
-                else:
-                    for attr_ref in attr_refs:
-                        if attr_ref in metamodel.scope_providers:
-                            if self.parser.debug:
-                                self.parser.dprint(f" FOUND {attr_ref}")
-                            resolved = metamodel.scope_providers[attr_ref](
-                                obj, attr, crossref
-                            )
-                            break
+                try:
+                    if crossref.scope_provider is not None:
+                        resolved = crossref.scope_provider(obj, attr, crossref)
                     else:
-                        resolved = default_scope(obj, attr, crossref)
+                        for attr_ref in attr_refs:
+                            if attr_ref in metamodel.scope_providers:
+                                if self.parser.debug:
+                                    self.parser.dprint(f" FOUND {attr_ref}")
+                                resolved = metamodel.scope_providers[attr_ref](
+                                    obj, attr, crossref
+                                )
+                                break
+                        else:
+                            resolved = default_scope(obj, attr, crossref)
+                except TextXError as e:
+                    # Errors without location are located at the reference.
+                    if e.line is None and e.col is None and e.filename is None:
+                        e.line, e.col = self.parser.pos_to_linecol(crossref.position)
+                        e.filename = self.model._tx_filename
+                    raise
 
                 # Collect cross-references for textx-tools
                 if (
